@@ -45,7 +45,7 @@ Commit ==
   /\ UNCHANGED <<chunks, pieces, wsaved, rapplied, rqueue>>
 
 Passive ==
-  /\ l <= Len(Rec) /\ E.ev \in {"newrep", "merge", "deliver", "fork", "setactor", "saveload", "getchanges", "missing"}
+  /\ l <= Len(Rec) /\ E.ev \in {"newrep", "merge", "deliver", "fork", "setactor", "saveload", "getchanges", "missing", "rollback"}
   /\ l' = l + 1
   /\ seen' = IF "obs" \in DOMAIN E THEN See(seen, E.obs) ELSE seen
   /\ UNCHANGED <<ch, chunks, pieces, wsaved, rapplied, rqueue>>
